@@ -37,7 +37,7 @@ class CostCap(Exception):
 
 def plan(tier):
     q = tier == "quick"
-    return [{"lane": "main", "n": 32 if q else 1500, "timeout": 1500 if q else 3400, "min_per_shard": 1, "max_shards": 32}]
+    return [{"lane": "main", "n": 32 if q else 900, "timeout": 1500 if q else 3400, "min_per_shard": 1, "max_shards": 32}]
 
 
 def floors(tier):
